@@ -32,6 +32,25 @@ CLAIMS['C20'] = dict(
     note='Trusted: clap (value_parser and ArgGroup enforcement), tokio::select!, rustc MIR, the extractor. Renaming the mode variables (human/json/raw_dump) is reported as a missing anchor.',
     ref='DESIGN.md §3 C20')
 
+CLAIMS['C18'] = dict(
+    level='proof',
+    technique='exhaustive finite table obligations extracted from MIR (string-match arms explored path-sensitively)',
+    text='Everything C18 states is a fact about nine hand-written match tables and a dispatcher, all finite. The name->place maps of get_register_always and set_register, the alias maps, '
+         'the validity alias groups, REGISTERS and the sp/ip names are extracted from the MIR of each impl and compared name by name (about 2300 obligations: same names, same place for get and set, '
+         'plain field read / plain store of `val`, distinct places for distinct canonical names, aliases memoize to a canonical name with the same place, validity honoured through both spellings, '
+         'sp/ip accessors read the named place, every dispatcher arm delegates to its own variant\'s impl, get_register guards get_register_always with register_is_valid). All obligations are enumerated and '
+         'discharged on every run, which is a proof of the table-level statement given Rust\'s field-assignment semantics; it is exhaustive over names, not sampled.',
+    note='Trusted base: rustc nightly MIR construction (string-literal match lowering), the mirfacts extractor, the PathExplorer in py/mirq.py, Rust semantics of field assignment and slice indexing with constant indices. Values are never computed.',
+    ref='DESIGN.md §3 C18')
+CLAIMS['C03'] = dict(
+    technique='panic-edge inventory with discharge rules, loop-shape classification, allocation provenance, dominance rules (walk bound, optional streams)',
+    text='Static analysis over every non-derive function of minidump-processor, minidump-unwind and breakpad-symbols (unwinders, CFI/WIN evaluators, symbolizer, text and JSON printers): every panic edge '
+         '(overflow/bounds/division asserts and calls to panicking APIs) is discharged by constant folding, type-history intervals, a dominating guard, a known idiom, trusted third-party macro text or a reviewed per-site argument; '
+         'every loop is finite-iterator-driven, an await loop or has a reviewed variant; allocation sizes are bounded; only the thread list and system info may abort processing; the walk loop must have a frame bound '
+         '(today it has none: recorded known finding). Eight genuine panics found this way were repaired in /repo (fix: commits). Does not decide time/memory budgets as numbers nor panics inside third-party crates.',
+    note='Trusted: rustc MIR, the extractor, reviewed tables (py/tables/*.json; entries marked ASSUMPTION rest on the x86 encoding / 32-bit x86 registers), third-party crates through the API table only. usize = 64 bit.',
+    ref='DESIGN.md §3 C03')
+
 NOT_YET = {}
 NA = {
     'C14': 'every clause relates values of the result to values of the dump (which thread, which context, which address after masking); no clause has a structural form that would not also fire on behaviour-preserving rewrites, so static analysis does not apply; its panic-freedom is covered under C03',
